@@ -433,6 +433,14 @@ class VDatetime:
 
     @staticmethod
     def now():
+        # reading the wall clock is a yield point: time may pass between two
+        # reads made by one statement
+        S.switch('now')
+        return VDatetime.base + _dt.timedelta(seconds=S.vnow)
+
+    @staticmethod
+    def peek():
+        """for monitors: the same instant without a scheduling point"""
         return VDatetime.base + _dt.timedelta(seconds=S.vnow)
 
 
